@@ -30,8 +30,9 @@ pub struct SDesc {
     /// (from, to) in registration order
     pub substitutes: Vec<(String, String)>,
     /// how the rules are registered: 0 = one `insert` per rule, 1 = ONE `extend` call with all of
-    /// them, 2 = one `insert_if_not_exists` per rule (the source paths are distinct, so all three
-    /// must give the same rule set)
+    /// them, 2 = one `insert_if_not_exists` per rule, 3 = the longest source path by `insert` and then
+    /// ONE `extend` with the rest, 4 = `insert`s followed by an empty `extend` (the source paths
+    /// are distinct, so all must give the same rule set)
     #[serde(default)]
     pub register_via: u8,
     /// build the settings value through `TypeGeneratorSettings::new()` and its builder methods
@@ -144,6 +145,29 @@ impl SDesc {
                 for (from, to) in &self.substitutes {
                     substitutes.insert_if_not_exists(p(from), absolute_path(p(to)).expect("absolute target")).expect("valid substitute");
                 }
+            }
+            (3, true) if !self.substitutes.is_empty() => {
+                // a history: the rule with the longest source path by `insert`, then ONE `extend`
+                // with the others (bookkeeping that `extend` rebuilds from its own batch shows here)
+                let first = (0..self.substitutes.len()).max_by_key(|&i| self.substitutes[i].0.matches("::").count()).unwrap();
+                let (from, to) = &self.substitutes[first];
+                substitutes.insert(p(from), absolute_path(p(to)).expect("absolute target")).expect("valid substitute");
+                substitutes
+                    .extend(
+                        self.substitutes
+                            .iter()
+                            .enumerate()
+                            .filter(|(i, _)| *i != first)
+                            .map(|(_, (from, to))| (p(from), absolute_path(p(to)).expect("absolute target"))),
+                    )
+                    .expect("valid substitutes");
+            }
+            (4, _) => {
+                // every rule by `insert`, then an `extend` with nothing
+                for (from, to) in &self.substitutes {
+                    substitutes.insert(p(from), absolute_path(p(to)).expect("absolute target")).expect("valid substitute");
+                }
+                substitutes.extend(std::iter::empty()).expect("empty extend");
             }
             _ => {
                 for (from, to) in &self.substitutes {
